@@ -362,12 +362,74 @@ fn classify(sh: &Shadow, op: &MemOp, real: &MemOut) -> Option<String> {
     Some(format!("mem|{kind}|w{n}|size{size}|{cls}{pad}|{outcome}"))
 }
 
+/// The operations the failing one depends on: the frame operations before it and the
+/// creators of the pointers it uses (renumbered). `None` when the shorter history does
+/// not fail in the same way.
+fn minimise(ops: &[MemOp], real: &[MemOut], at: usize, key: &str) -> Option<Vec<MemOp>> {
+    if key.contains("value") {
+        return None;
+    }
+    // pointer id -> index of the operation that created it
+    let mut creator: Vec<usize> = vec![];
+    for (i, o) in real.iter().enumerate().take(at) {
+        if let MemOut::Ptr(p) = o {
+            if *p == creator.len() {
+                creator.push(i);
+            }
+        }
+    }
+    let uses = |o: &MemOp| -> Vec<usize> {
+        match o {
+            MemOp::OffsetBy(p, _) | MemOp::Read(p, _) | MemOp::Write(p, _) => vec![*p],
+            MemOp::Copy(t, f, _) => vec![*t, *f],
+            _ => vec![],
+        }
+    };
+    let mut needed: Vec<usize> = vec![];
+    let mut todo = uses(&ops[at]);
+    while let Some(p) = todo.pop() {
+        if p >= creator.len() || needed.contains(&p) {
+            continue;
+        }
+        needed.push(p);
+        todo.extend(uses(&ops[creator[p]]));
+    }
+    needed.sort();
+    let renum = |p: usize| needed.iter().position(|q| *q == p).unwrap_or(p);
+    let mut out = vec![];
+    for (i, o) in ops.iter().enumerate().take(at + 1) {
+        let keep = i == at
+            || matches!(o, MemOp::PushFrame | MemOp::PopFrame)
+            || needed.iter().any(|p| creator[*p] == i);
+        if !keep {
+            continue;
+        }
+        out.push(match o {
+            MemOp::OffsetBy(p, k) => MemOp::OffsetBy(renum(*p), *k),
+            MemOp::Read(p, n) => MemOp::Read(renum(*p), *n),
+            MemOp::Write(p, b) => MemOp::Write(renum(*p), b.clone()),
+            MemOp::Copy(t, f, n) => MemOp::Copy(renum(*t), renum(*f), *n),
+            other => other.clone(),
+        });
+    }
+    // does it still fail, in the same way, at its last operation?
+    let real2 = mem_run(&out);
+    let mut sh = Shadow::new();
+    for (i, (op, o)) in out.iter().zip(&real2).enumerate() {
+        if let Some((k, _)) = sh.step(op, o) {
+            return (i + 1 == out.len() && k == key).then_some(out);
+        }
+    }
+    None
+}
+
 /// Run one sequence three ways. Returns the index of the first violation.
 pub fn check_seq(rep: &mut Report, drv: Option<&mut Driver>, ops: &[MemOp], origin: &str) -> Option<usize> {
     let real = mem_run(ops);
     let text = show_ops(ops);
     let mut sh = Shadow::new();
     let mut first = None;
+    let mut keys_seen: Vec<String> = vec![];
     for (i, (op, out)) in ops.iter().zip(&real).enumerate() {
         rep.evaluations += 1;
         if let Some(c) = classify(&sh, op, out) {
@@ -377,16 +439,26 @@ pub fn check_seq(rep: &mut Report, drv: Option<&mut Driver>, ops: &[MemOp], orig
         if let Some((key, what)) = sh.step(op, out) {
             if first.is_none() {
                 first = Some(i);
-                // a minimal history: everything the failing operation depends on is before it
-                let upto = show_ops(&ops[..=i]);
+            }
+            if !keys_seen.contains(&key) {
+                keys_seen.push(key.clone());
+                // a minimal history: what the failing operation depends on
+                let upto = match minimise(ops, &real, i, &key) {
+                    Some(m) => show_ops(&m),
+                    None => show_ops(&ops[..=i]),
+                };
                 rep.violation(
                     &format!("evaluator memory: {what}"),
                     &key,
-                    json!({"case": {"kind": "mem", "ops": upto, "at": i}, "origin": origin, "operation": show_ops(&ops[i..=i]), "real": show_out(out)}),
+                    json!({"case": {"kind": "mem", "ops": upto}, "origin": origin, "at": i,
+                           "operation": show_ops(&ops[i..=i]), "real": show_out(out)}),
                 );
             }
-            // the shadow cannot follow an execution it forbids
-            break;
+            // a read leaves the state alone; after anything else the shadow cannot follow an
+            // execution it forbids
+            if !matches!(op, MemOp::Read(..)) {
+                break;
+            }
         }
     }
     if let Some(drv) = drv {
